@@ -32,9 +32,10 @@ ID = "C12"
 LEVEL = "exploration"
 EXHAUSTIVE = True
 RULE = (
-    "single: swatch sets x forms {4x6x3, 24x3, 6x3} x ground-truth maps (identity, diagonals, I+eps*M linear, affine) x balance "
+    "single: swatch sets x forms {4x6x3, 24x3, 6x3} x ground-truth maps (identity, diagonals, I+eps*M linear, affine, one non-affine) x balance "
     "{White, Color, Affine, Adaptive:diagonal|linear|affine} x start {identity, prescribed non-identity} x entry {find+apply, __call__, "
-    "shortcut function}; staged: swatch sets x forms x maps x EVERY ordered pair and triple of {diagonal, linear, affine}; correction: "
+    "shortcut function}; staged: (swatch set, form) x maps x targets {same destination for all stages, a different map per stage} x EVERY "
+    "ordered pair and triple of {diagonal, linear, affine}; correction: "
     "reference checkers x maps x whitebalancing {on, off} x colorbalancing {affine, linear} x image dtype. Complete product, no sampling. "
     "Non-trivial = ground truth is not the identity (the optimiser has to leave its start); distinct = distinct case descriptor."
 )
@@ -53,7 +54,7 @@ TOL_EXTRACT = 5e-5
 TOL_CC = 2e-4
 
 MODES = ("diagonal", "linear", "affine")
-LEVELS = {"identity": 0, "diagonal": 1, "linear": 2, "affine": 3}
+LEVELS = {"identity": 0, "diagonal": 1, "linear": 2, "affine": 3, "nonaffine": 4}
 STAGE_CLASS = {"diagonal": "WhiteBalance", "linear": "ColorBalance", "affine": "AffineBalance"}
 BALANCES = {  # name -> (class name, adaptive mode or None, level)
     "White": ("WhiteBalance", None, 1),
@@ -90,6 +91,9 @@ TRUTHS = {
     "aff:d1+b2": ("affine", "d1", None, "b2"),
     "aff:gen+b1": ("affine", None, ("gen", 0.1), "b1"),
     "aff:shear+b3": ("affine", None, ("shear", 0.1), "b3"),
+    # not representable by any balance: affine map plus a channel-wise quadratic 0.25*(x^2-x); no recovery is demanded, only
+    # monotonicity and composition (every stage of a staged fit then stays away from the identity)
+    "quad:gen+b1": ("nonaffine", None, ("gen", 0.1), "b1"),
     # thorough only
     "diag:far": ("diagonal", None, None, None),
     "lin:gen2": ("linear", None, ("gen", 0.2), None),
@@ -99,7 +103,9 @@ TRUTHS = {
     "aff:sym2+b1": ("affine", None, ("sym", 0.2), "b1"),
 }
 QUICK_TRUTHS = [t for t in TRUTHS if t not in ("diag:far", "lin:gen2", "lin:skew2", "lin:d2*sym", "aff:skew+b2", "aff:sym2+b1")]
-CC_TRUTHS_QUICK = ["identity", "diag:d1", "lin:gen", "lin:skew", "aff:shift", "aff:gen+b1", "aff:shear+b3"]
+CC_TRUTHS_QUICK = ["identity", "diag:d1", "lin:gen", "lin:skew", "aff:shift", "aff:gen+b1", "aff:shear+b3", "quad:gen+b1"]
+# destinations of the later stages of a staged fit with "moving" targets: stage k aims at RING[(i + 5k) mod 12]
+RING = [t for t in QUICK_TRUTHS if TRUTHS[t][0] not in ("identity", "nonaffine")]
 
 # classic colour checker (x-rite, after 2014) in 1/256 units, row by row; last row = greys
 _CLASSIC = [
@@ -128,6 +134,24 @@ def truth_map(name):
         A = A @ (np.eye(3) + m[1] * np.array(_M[m[0]], dtype=float))
     t = np.zeros(3) if b is None else np.array(_B[b], dtype=float)
     return cls, A, t
+
+
+def apply_truth(name, x):
+    """Destination swatches of the ground-truth map ``name`` for source colours x (double precision)."""
+    cls, A, t = truth_map(name)
+    x = np.asarray(x, dtype=float)
+    y = x @ A + t
+    if cls == "nonaffine":
+        y = y + 0.25 * (x * x - x)
+    return y
+
+
+def stage_truths(name, n, targets):
+    """Ground truth aimed at by each of the n stages."""
+    if targets == "same":
+        return [name] * n
+    i = list(TRUTHS).index(name)
+    return [name] + [RING[(i + 5 * k) % len(RING)] for k in range(1, n)]
 
 
 def swatch_set(name):
@@ -163,11 +187,17 @@ def seq_class(seq):
     return "mixed-linear"  # non-commuting matrices, translation (if any) only added last
 
 
-def recovering(seq, tlevel):
-    """Does some stage contain the whole remaining map (truth o previous stages^-1)?"""
-    lv = 0
-    for m in seq:
-        if LEVELS[m] >= max(tlevel, lv):
+def recovering(seq, names):
+    """Is the destination of the last stage reproduced exactly?  Yes iff, since that destination was set, some
+    stage contains the whole remaining map (truth o previous stages^-1): its mode is at least as general as the
+    truth and as every earlier stage.  Later stages then start from a zero residual and stay there."""
+    k0 = len(seq) - 1
+    while k0 > 0 and names[k0 - 1] == names[-1]:
+        k0 -= 1
+    tl = LEVELS[TRUTHS[names[-1]][0]]
+    lv = max([LEVELS[m] for m in seq[:k0]], default=0)
+    for m in seq[k0:]:
+        if LEVELS[m] >= max(tl, lv):
             return True
         lv = max(lv, LEVELS[m])
     return False
@@ -178,12 +208,12 @@ def _axes(tier):
     if tier == "quick":
         return {
             "single": {"sets": SETS, "forms": FORMS, "truths": QUICK_TRUTHS, "dtypes": ("float64",)},
-            "staged": {"sets": ("f0", "classic"), "forms": ("4x6x3", "24x3"), "truths": QUICK_TRUTHS},
+            "staged": {"same": [(s, f) for s in ("f0", "classic") for f in ("4x6x3", "24x3")], "moving": [("f0", "4x6x3"), ("classic", "24x3")], "truths": QUICK_TRUTHS},
             "correction": {"refs": ("f0", "default"), "truths": CC_TRUTHS_QUICK, "dtypes": ("float64",)},
         }
     return {
         "single": {"sets": SETS, "forms": FORMS, "truths": list(TRUTHS), "dtypes": ("float64", "float32")},
-        "staged": {"sets": SETS, "forms": FORMS, "truths": list(TRUTHS)},
+        "staged": {"same": [(s, f) for s in SETS for f in FORMS], "moving": [(s, f) for s in SETS for f in FORMS], "truths": list(TRUTHS)},
         "correction": {"refs": ("f0", "f1", "classic", "default"), "truths": QUICK_TRUTHS, "dtypes": ("float64", "float32", "uint8")},
     }
 
@@ -193,7 +223,12 @@ def describe(tier):
     seqs = [list(s) for n in (2, 3) for s in itertools.product(MODES, repeat=n)]
     return {
         "single": {**{k: list(v) for k, v in ax["single"].items()}, "balances": list(BALANCES), "starts": ["identity", "given"], "entries": ["find+apply", "call", "shortcut"]},
-        "staged": {**{k: list(v) for k, v in ax["staged"].items()}, "sequences": len(seqs), "stage_modes": list(MODES), "lengths": [2, 3]},
+        "staged": {
+            "truths": list(ax["staged"]["truths"]),
+            "targets=same (every stage aims at the same destination): (set, form)": [list(x) for x in ax["staged"]["same"]],
+            "targets=moving (stage k aims at RING[(i+5k) mod 12]): (set, form)": [list(x) for x in ax["staged"]["moving"]],
+            "sequences": len(seqs), "stage_modes": list(MODES), "lengths": [2, 3], "ring": RING,
+        },
         "correction": {**{k: list(v) for k, v in ax["correction"].items()}, "whitebalancing": [True, False], "colorbalancing": ["affine", "linear"]},
         "truth_maps": {t: {"class": truth_map(t)[0], "A": truth_map(t)[1].tolist(), "b": truth_map(t)[2].tolist()} for t in ax["staged"]["truths"]},
         "tolerances": {"recover": TOL_RECOVER, "monotone": TOL_MONO, "algebra": TOL_ALGEBRA, "applied": TOL_APPLY, "correction": TOL_CC},
@@ -216,9 +251,10 @@ def cases(tier):
                 out.append({"kind": "single", "set": s, "form": f, "truth": t, "dtype": dt, "balance": bal, "start": start, "entry": entry})
     a = ax["staged"]
     for n in (2, 3):
-        for s, f, t in itertools.product(a["sets"], a["forms"], a["truths"]):
-            for seq in itertools.product(MODES, repeat=n):
-                out.append({"kind": "staged", "set": s, "form": f, "truth": t, "seq": list(seq)})
+        for targets in ("same", "moving"):
+            for (s, f), t in itertools.product(a[targets], a["truths"]):
+                for seq in itertools.product(MODES, repeat=n):
+                    out.append({"kind": "staged", "set": s, "form": f, "truth": t, "targets": targets, "seq": list(seq)})
     a = ax["correction"]
     for ref, t, dt in itertools.product(a["refs"], a["truths"], a["dtypes"]):
         for wb in (True, False):
@@ -281,7 +317,7 @@ def _inputs(case):
     tcls, A, b = truth_map(case["truth"])
     if case.get("dtype", "float64") == "float32":
         src = src.astype(np.float32)
-    dst = src.astype(float) @ A + b  # exact map of the values the code sees, in double precision
+    dst = apply_truth(case["truth"], src)  # exact map of the values the code sees, in double precision
     return src, dst, tcls, A, b
 
 
@@ -354,17 +390,21 @@ def _run_single(case, r):
 def _run_staged(case, r):
     import darsia
 
-    src, dst, tcls, A, b = _inputs(case)
+    src, _, _, _, _ = _inputs(case)
     seq = case["seq"]
+    names = stage_truths(case["truth"], len(seq), case["targets"])
+    dsts = [apply_truth(n, src) for n in names]
     sc = seq_class(seq)
     ada = darsia.AdaptiveBalance()
     chain = []  # independently fitted stage balances
-    res = [_res(ada.apply_balance(src), dst)]
+    res = []
     x_chain = src.astype(float).copy()
     p_chain = PROBE.copy()
     for k, mode in enumerate(seq):
+        dst = dsts[k]
         Ap, bp = _state(ada)
         pre = ada.apply_balance(src)
+        before = _res(pre, dst)
         # independent stage fit on the pre-balanced swatches
         st = getattr(darsia, STAGE_CLASS[mode])()
         st.find_balance(np.array(pre, copy=True), dst)
@@ -392,12 +432,13 @@ def _run_staged(case, r):
         )
         x_chain = x_chain @ As + bs
         p_chain = p_chain @ As + bs
-        res.append(_res(ada.apply_balance(src), dst))
+        after = _res(ada.apply_balance(src), dst)
+        res += [before, after]
         r.check(
-            res[-1] <= res[-2] + TOL_MONO,
+            after <= before + TOL_MONO,
             f"C12/adaptive/staged-monotone/{sc}",
-            "a further stage never increases the swatch residual of the accumulated balance",
-            stage=k, mode=mode, before=res[-2], after=res[-1],
+            "a further stage never increases the swatch residual (towards the destination of that stage) of the accumulated balance",
+            stage=k, mode=mode, target=names[k], before=before, after=after,
         )
     # --- applying the accumulated balance = applying the stage balances one after the other
     got_s = np.asarray(ada.apply_balance(src), dtype=float)
@@ -407,22 +448,23 @@ def _run_staged(case, r):
         d <= TOL_APPLY,
         f"C12/adaptive/staged-apply/{sc}",
         "accumulated.apply(x) = stage_n(... stage_1(x)) on the swatches and on probe colours (0, unit vectors, white)",
-        max_difference=d, stages=[(m, a_, b_) for m, a_, b_ in chain], accumulated=_state(ada),
+        max_difference=d, targets=names, stages=[(m, a_, b_) for m, a_, b_ in chain], accumulated=_state(ada),
     )
     # --- a stage general enough for the remaining map makes the staged fit exact
-    if recovering(seq, LEVELS[tcls]):
-        err = float(np.abs(got_s - dst).max())
+    if recovering(seq, names):
+        err = float(np.abs(got_s - dsts[-1]).max())
+        _, A, b = truth_map(names[-1])
         r.check(
             err <= TOL_RECOVER,
             f"C12/adaptive/staged-recover/{sc}",
-            "destination = exact map of the sources and one stage can represent the remaining map: the accumulated balance reproduces dst",
-            max_error=err, truth_A=A, truth_b=b, accumulated=_state(ada),
+            "last destination = exact map of the sources and one stage can represent the remaining map: the accumulated balance reproduces it",
+            max_error=err, targets=names, truth_A=A, truth_b=b, accumulated=_state(ada),
         )
     # --- reset gives back the identity
     ada.reset()
     A0, b0 = _state(ada)
-    r.check(np.array_equal(A0, np.eye(3)) and np.array_equal(b0, np.zeros(3)), "C12/adaptive/reset", "reset() restores the identity balance")
-    r.outcome((case["set"], case["form"], case["truth"], seq, [round(x, 9) for x in res], np.round(got_p.ravel(), 7).tolist()))
+    r.check(np.array_equal(A0, np.eye(3)) and np.array_equal(b0, np.zeros(3)), "C12/adaptive/reset", "reset() restores the identity balance", A=A0, b=b0)
+    r.outcome((case["set"], case["form"], names, seq, [round(x, 9) for x in res], np.round(got_p.ravel(), 7).tolist()))
 
 
 # ---- synthetic colour-checker image: constant blocks around the swatch windows that
@@ -457,6 +499,8 @@ def _run_correction(case, r):
     R = np.asarray(corr.colorchecker.swatches_rgb, dtype=float)
     # photographed swatches S with S @ A + b = R
     S = (R - b) @ np.linalg.inv(A)
+    if tcls == "nonaffine":  # no balance can undo this; only the composition is checked
+        S = S + 0.25 * (S * S - S)
     img = checker_image(S)
     if case["dtype"] == "float32":
         img = img.astype(np.float32)
